@@ -170,7 +170,7 @@ def a2_a5(chk, repo, rule_summary="C13-A2", summary_only=False):
         calls = []
         roles = DictS({"volume_directory": Const("VOL-P"), "sar_leader": Const("LED-P"), "sar_imagery": ListLit([Const(x) for x in images]), "sar_trailer": Const("TRL-P")})
         summary = G("summary", DictS({"product_information": G("product_information", DictS({"data_files": G("data_files", None, roles)}))}))
-        marks = {"summary": summary, "volume": G("/", None, DictS({"vol": Const("V")})), "leader": G("metadata", None, DictS({"led": Const("L")}))}
+        marks = {"summary": summary, "volume": G("/", None, DictS(OrderedDict([("vol", Const("V")), ("blank_text", Const("")), ("zero", Const(0))]))), "leader": G("metadata", None, DictS({"led": Const("L")}))}
 
         def rec(name, ret):
             def impl(I_, args, kwargs):
@@ -256,7 +256,8 @@ def a2_a5(chk, repo, rule_summary="C13-A2", summary_only=False):
         else:
             raise AnalysisError(f"{where}: the imagery group's children do not evaluate to a mapping")
         a = {k: (v.v if isinstance(v, Const) else None) for k, v in attrs.items.items()}
-        ok = a.get("vol") == "V" and set(a) == {"vol", "reference_document"} and isinstance(a.get("reference_document"), str) and not attrs.optional
+        # the model volume directory has a blank text attribute and a zero: fields that are present stay present whatever their value
+        ok = a.get("vol") == "V" and a.get("blank_text") == "" and a.get("zero") == 0 and set(a) == {"vol", "blank_text", "zero", "reference_document"} and isinstance(a.get("reference_document"), str) and not attrs.optional
         chk.require(ok, "C13-A5", where, "root attrs = volume directory attrs | {'reference_document': ...}", f"root attrs are {a}: not the volume directory attributes plus the reference link", key="open:root-attrs")
 
 
